@@ -109,14 +109,38 @@ func solveQuery(workdir string, id int, header string, q *Query, timeoutS int, a
 	for _, s := range solvers {
 		go func(s solverSpec) { ch <- runSolver(ctx, s, file, timeoutS) }(s)
 	}
-	for range solvers {
-		a := <-ch
+	// all = cross-check (thorough tier): after the first definite answer, wait a little longer for a
+	// definite answer from the other solver family (z3 / cvc5); decide() reports any disagreement.
+	var crossDeadline <-chan time.Time
+	firstFamily := ""
+	got := 0
+loop:
+	for got < len(solvers) {
+		var a answer
+		select {
+		case a = <-ch:
+		case <-crossDeadline:
+			cancel()
+			break loop
+		}
+		got++
 		answers = append(answers, a)
-		if !all && (a.result == "sat" || a.result == "unsat") {
+		if a.result != "sat" && a.result != "unsat" {
+			continue
+		}
+		if !all {
 			// put the deciding answer first
 			answers[0], answers[len(answers)-1] = answers[len(answers)-1], answers[0]
 			cancel()
-			break
+			break loop
+		}
+		fam := solverFamily(a.solver)
+		if firstFamily == "" {
+			firstFamily = fam
+			crossDeadline = time.After(crossWait)
+		} else if fam != firstFamily {
+			cancel()
+			break loop
 		}
 	}
 	if !q.KeepFile {
@@ -286,6 +310,16 @@ func sexprTokens(s string) []string {
 		}
 	}
 	return toks
+}
+
+// crossWait: how long the thorough tier waits for a second opinion from the other solver family.
+const crossWait = 8 * time.Second
+
+func solverFamily(name string) string {
+	if strings.HasPrefix(name, "cvc5") {
+		return "cvc5"
+	}
+	return "z3"
 }
 
 func maxInt(a, b int) int {
